@@ -120,3 +120,10 @@ Definition bc_push (maxSize : nat) (c : bcache) (h : N) (id : key) : option bcac
   end.
 Definition bc_pop (c : bcache) : bcache := tl c.
 Definition bc_last (c : bcache) : option (N * key) := hd_error c.
+
+(* chain.go PrepareCache (repaired: lower bound = genesis height): on an empty cache push the blocks of heights
+   max(genesis, tip - maxSize) .. tip in ascending order.  [chain] = (height, id) of the blocks in the database,
+   newest first, down to the genesis block. *)
+Definition bc_prepare (maxSize : nat) (chain : bcache) : option bcache :=
+  fold_left (fun c x => match c with Some c' => bc_push maxSize c' (fst x) (snd x) | None => None end)
+            (rev (firstn (S maxSize) chain)) (Some []).
